@@ -295,6 +295,56 @@ func zzC03_blockwise() {
 
 var zzBlkNext [2]int
 
+// block-wise on: while a multi-block download is in progress, a second request with the same token is issued; it
+// is rejected, and the download it collided with still completes with its full body
+func zzC03_blockwise_sametoken() {
+	s := zzNewSession()
+	cc := zzNewConn(s, zzConnCfg{midSeed: 1000, nstart: 2, maxRetrans: 4, blockwise: true})
+	symSetNow(time.Unix(0, 1<<41))
+	tok := message.Token{0xA1, 0xA2}
+	body := zzBigBody(40, 0x10)
+	body[0], body[39] = symU8("b0"), symU8("b39")
+	a := &zzCall{token: tok}
+	go zzDo(cc, a)
+	serve := func(k int, num int) {
+		w := s.written[k]
+		lo, hi := 16*num, 16*num+16
+		more := true
+		if hi >= 40 {
+			hi, more = 40, false
+		}
+		m := zzRequest(message.Acknowledgement, w.mid, codes.Content, w.token, body[lo:hi])
+		m.SetOptionUint32(message.Block2, zzBlockOpt(int64(num), more))
+		_ = m.SetETag([]byte{7})
+		d, _ := m.MarshalWithEncoder(coder.DefaultCoder)
+		_ = cc.Process(nil, append([]byte(nil), d...))
+	}
+	zzWaitWritten(s, 1)
+	symIdle()
+	serve(0, 0)
+	zzWaitWritten(s, 2) // the request for block 1 is on the wire
+	symIdle()
+	symAssert(!a.done, "the download is in progress")
+	// a second request with the same token while the first is outstanding
+	b := &zzCall{token: tok}
+	go zzDo(cc, b)
+	symWaitUntil(func() bool { return b.done })
+	symIdle()
+	symAssert(b.err != nil, "a second request with a token that is still outstanding is rejected")
+	symCover("duplicate-token-rejected")
+	next := 1
+	for k := 1; k < len(s.written) && k < 6 && !a.done; k++ {
+		if s.written[k].code != codes.GET {
+			continue
+		}
+		serve(k, next)
+		next++
+		symIdle()
+	}
+	symWaitUntil(func() bool { return a.done })
+	symAssert(a.err == nil && bytes.Equal(a.body, body), "rather than displacing the first: the download it collided with completes with its full body")
+}
+
 func zzC03_selftest() {
 	s := zzNewSession()
 	cc := zzNewConn(s, zzConnCfg{midSeed: 1000, nstart: 2, maxRetrans: 4})
